@@ -4,6 +4,7 @@
 //!   1 hll_fn   lg_k ooo hip_bits kxq0_bits kxq1_bits cur_min num_at_cur_min -> [est lb1 lb2 lb3 ub1 ub2 ub3]
 //!   2 cpc_fn   merge_flag hip_bits lg_k num_coupons                         -> [est lb1 lb2 lb3 ub1 ub2 ub3]
 //!   3 theta_fn num_samples theta_bits no_data_seen                          -> [lb1 lb2 lb3 ub1 ub2 ub3] | ERR
+//!   7 hll_parts lg_k kxq0_bits kxq1_bits cur_min num_at_cur_min -> [raw bitmap composite]  (out-of-order estimator)
 //! Sketch-level ops (public API only; items are the distinct integers seed*2^32 + i, i < n):
 //!   4 hll_sk   lg_k type n seed mode   mode 0 streamed, 1 serialize+deserialize, 2 union of two overlapping halves,
 //!                                      3 union of the same two halves read back from bytes
@@ -167,6 +168,10 @@ impl Family for Fam {
                 let mut ob = seven(c.estimate(), |k| c.lower_bound(k), |k| c.upper_bound(k));
                 ob.extend(tail(c.num_retained(), c.theta64(), c.is_empty()));
                 ob
+            }
+            7 => {
+                let r = datasketches::hll::verif_estimator_parts(a[0] as u8, f(a[1]), f(a[2]), a[3] as u8, a[4] as u32);
+                r.iter().map(|x| fbits(*x)).collect()
             }
             _ => panic!("bounds: unknown op {code}"),
         }
